@@ -138,7 +138,9 @@ func (st *State) pointwise(goal string, asserts []string) (string, []string) {
 	sk := st.fresh("sk_"+strings.TrimPrefix(v, "q_"), Sort(sort))
 	newGoal := substVar(body, v, sk)
 	if prefix != "" {
-		newGoal = imp(prefix, newGoal)
+		// to prove  prefix ==> G  is to prove G with prefix among the hypotheses: its quantified
+		// conjuncts are then instantiated at the skolem constant like every other hypothesis
+		asserts = append(append([]string(nil), asserts...), conjuncts(prefix)...)
 	}
 	out := append([]string(nil), asserts...)
 	for _, a := range asserts {
